@@ -305,4 +305,13 @@ def encodePSigs (m : PSigs) : List Nat :=
 def encodeSPSig (m : SPSig) : List Nat :=
   leBytes 4 spsigFixed ++ m.signature ++ leBytes 8 m.signer ++ encodePSigs m.message
 
+/-- the offset table written by the generated `MarshalSSZTo` for a list of byte lists: one 4-byte offset per item,
+    starting at `off` -/
+def offTable (off : Nat) : List (List Nat) → List Nat
+  | [] => []
+  | x :: r => leBytes 4 off ++ offTable (off + x.length) r
+
+/-- encoding of a dynamic list of byte lists: offset table, then the items -/
+def encodeDyn (items : List (List Nat)) : List Nat := offTable (4 * items.length) items ++ items.flatten
+
 end Ssv.Ssz
